@@ -207,6 +207,9 @@ fn scenario_decls(shadow: bool, alias: bool) -> Vec<RDecl> {
         r_body.push(RStmt::Assign(vname("time"), bin(Op::Add, evar("time"), eint(1))));
         r_vars.push(RVarDecl { name: "q".into(), ty: tname("int") });
         r_vars.push(RVarDecl { name: "v".into(), ty: arr(2, tname("int")) });
+        // a local named like the predefined type (declared last: it hides `int` from then on)
+        r_vars.push(RVarDecl { name: "int".into(), ty: tname("A") });
+        r_body.push(RStmt::Assign(vname("i"), RExpr::Var(idx(vname("int"), eint(1)))));
         r_body.push(RStmt::Assign(vname("q"), bin(Op::Add, evar("i"), RExpr::Var(idx(vname("v"), evar("q"))))));
     }
     d.push(RDecl::Proc {
